@@ -10,7 +10,7 @@ from pony import orm
 from pony.orm import core
 
 BOUND_TD = 'one model (5 entities, every key shape), every object, 3 session states (loaded / modified in the session / created in the session) x 40 option combinations of to_dict'
-BOUND_PK = 'the same model; single objects, lists, query results, nested containers; unpickled in a fresh session, in a session that already holds the objects, and in the pickling session'
+BOUND_PK = 'the same model; single objects, lists, query results, nested containers, collections (many-to-many from either end, one-to-many); unpickled in a fresh session, in a session that already holds the objects, and in the pickling session'
 _M = None
 
 
@@ -185,6 +185,9 @@ PICKLED = {
     'query result of pairs': lambda M: orm.select((b, b.trip) for b in M.Booking).order_by(lambda b, t: b.price)[:], 'nested containers': lambda M: {'k': [M.Seat['A', 2], (M.Plain.select().order_by(M.Plain.id).first(), 3)]},
     'trip with loaded lazy attribute': lambda M: (lambda t: (t.notes, t)[1])(M.Trip.get(name='t')), 'query result of values': lambda M: orm.select((s.row, s.number) for s in M.Seat).order_by(1, 2)[:],
     'everything': lambda M: [list(E.select()) for E in (M.Trip, M.Seat, M.Booking, M.Receipt, M.Plain)],
+    # collections themselves (a SetInstance pickles its owner and its members)
+    'a many-to-many collection': lambda M: M.Trip.get(name='t').favourite_seats, 'the other end of a many-to-many collection': lambda M: M.Seat['A', 1].trips_seen,
+    'a one-to-many collection': lambda M: M.Trip.get(name='t').bookings, 'an object and two of its collections': lambda M: (lambda t: [t, t.favourite_seats, t.plains])(M.Trip.get(name='t')),
 }
 TARGETS = ('fresh session', 'session that already loaded everything', 'same session', 'fresh session, values read after it is over')
 
@@ -195,6 +198,9 @@ def pk_configs(tier):
 
 def _walk(x):
     if isinstance(x, core.Entity): yield x
+    elif isinstance(x, core.SetInstance):
+        yield x._obj_
+        for v in x: yield v
     elif isinstance(x, dict):
         for v in x.values(): yield from _walk(v)
     elif isinstance(x, (list, tuple, core.QueryResult)):
@@ -203,6 +209,7 @@ def _walk(x):
 
 def _shape(x):
     if isinstance(x, core.Entity): return (type(x).__name__, key_of(x))
+    if isinstance(x, core.SetInstance): return ('collection', type(x._obj_).__name__, key_of(x._obj_), x._attr_.name, sorted(key_of(v) for v in x))
     if isinstance(x, dict): return {k: _shape(v) for k, v in x.items()}
     if isinstance(x, (list, tuple, core.QueryResult)): return [_shape(v) for v in x]
     return x
